@@ -49,3 +49,30 @@ LEVEL_TEXT = ("Deductive proof of the tree operations against an abstract-view c
 LEVEL_NOTE = "Trusted: CBMC; callers pass size classes in [6,16] and pointers to live blocks; quick tier geometry reduced by a must-fire rewrite of two #define lines."
 TECHNIQUE = "CBMC function contracts (dfcc) with abstract view + representation invariant on the real buddy.c"
 DESIGN_REF = "DESIGN.md §4 C12"
+
+# ---- multi-arena layer (rs_malloc / rs_free / rs_realloc / rs_calloc) on a reduced geometry with the real buddy.c
+FM = "harness/c12_multi.c"
+def multi(name, entry, desc, geom, tiers, to=1800, canaries=2, pid="C12"):
+    t, b = geom
+    nodes = 1 << (t - b + 1)
+    tot = 1 << t
+    big = max(nodes, tot) * 3 + 4
+    fns = ["rs_malloc", "rs_calloc", "rs_free", "rs_realloc", "buddy_find_by_address", "model_allocator_checkpoint_take", "model_allocator_checkpoint_restore",
+           "buddy_malloc", "buddy_free", "buddy_init", "buddy_best_effort_realloc", "checkpoint_full_take", "checkpoint_full_restore"]
+    uw = [f"{entry}.{k}:{big}" for k in range(12)] + [f"b_wf.0:{nodes + 1}", f"b_wf_lon.0:{nodes + 1}", f"b_alloc_bytes.0:{nodes + 1}", "mm_expected_size.0:5", "mm_arenas_ok.0:5",
+          "free.0:10", f"memcpy.0:{tot + 18}", f"memmove.0:40", f"memmove.1:40", f"memset.0:{tot + 2}",
+          "rs_malloc.0:5", "rs_malloc.1:5", "rs_malloc.2:3", "rs_malloc.3:3",
+          f"buddy_malloc.0:{t - b + 2}", f"buddy_malloc.1:{t - b + 2}", f"buddy_free.0:{t - b + 2}", f"buddy_free.1:{t - b + 2}", f"buddy_init.0:{nodes + 2}",
+          f"buddy_best_effort_realloc.0:{t - b + 2}", "buddy_find_by_address.0:4", "rs_free.0:4", "rs_realloc.0:4", "rs_realloc.1:4",
+          "model_allocator_checkpoint_take.0:3", "model_allocator_checkpoint_take.1:5", "model_allocator_checkpoint_restore.0:4", "model_allocator_checkpoint_restore.1:5", "model_allocator_checkpoint_restore.2:4",
+          f"checkpoint_full_take.0:{t - b + 3}", f"checkpoint_full_take.1:{nodes + nodes // 2 + 3}", f"checkpoint_full_restore.0:{t - b + 3}", f"checkpoint_full_restore.1:{nodes + nodes // 2 + 3}"]
+    return H(name=f"{pid}.{name}.g{t}_{b}", file=FM, entry=entry, funcs=fns, geometry=geom, kind="bounded",
+             bound=f"at most 2 arenas of reduced geometry B_TOTAL_EXP={t}, B_BLOCK_EXP={b}; all well-formed trees, all contents, all request sizes",
+             unwindset=tuple(uw), tiers=tiers, timeout=to, mem_gb=16, canaries=canaries, objbits=8, desc=desc)
+MULTI = [
+    multi("rs_malloc", "h_rs_malloc", "size 0 -> NULL, nothing changed; over-size -> NULL, ENOMEM, nothing changed; otherwise a block inside allocator memory, large enough, disjoint from every live block, live blocks stay live, no arena byte altered, INV_MM (checkpoint size accounting) preserved, growth to a new arena", (5, 2), ("quick", "thorough")),
+    multi("rs_free", "h_rs_free", "the block dies, others stay, space reusable, INV_MM preserved; the arena lookup finds the arena holding the pointer", (5, 2), ("quick", "thorough")),
+    multi("rs_realloc", "h_rs_realloc", "common prefix preserved (ghost byte), old block released when moved, INV_MM preserved", (5, 2), ("quick", "thorough")),
+    multi("rs_calloc", "h_rs_calloc", "zeroed memory; zero-size, over-size and OVERFLOWING nmemb*size requests fail", (5, 2), ("quick", "thorough")),
+]
+HARNESSES = tuple(HARNESSES) + tuple(MULTI)
